@@ -41,7 +41,7 @@
 #ifndef NSTEPS
 #define NSTEPS 1
 #endif
-#define NSYS (2 * SIZE + 4)	/* I/O system calls */
+#define NSYS (NSTEPS * (SIZE + 1) + 1)	/* I/O system calls: every call but the last of a round moves >= 1 byte */
 #define NEVC 12			/* tpt_ev_* calls */
 #define NCB 3			/* callbacks */
 
@@ -49,19 +49,19 @@ struct evin_s { uint16_t flags; uint32_t fflags; uint8_t is_timer; };
 struct in_s {
 	/* io_buf state */
 	uint8_t		data[SIZE];
-	uint64_t	used, offset, transfer_size;
+	uint8_t		used, offset, transfer_size;	/* (narrow types: the values are <= SIZE anyway; constant high bits keep the adders small) */
 	/* task state */
 	uint16_t	event_flags;
 	uint32_t	flags;
 	uint64_t	timeout;
-	int64_t		file_offset;
-	uint64_t	tot;
+	uint32_t	file_offset;	/* bound: < 2^32 */
+	uint32_t	tot;		/* bound: < 2^32 */
 	/* events delivered */
 	struct evin_s	ev[NSTEPS];
 	/* environment */
-	int64_t		ios[NSYS];
+	int8_t		ios[NSYS];	/* -1 or 0..requested (<= SIZE) */
 	int32_t		io_errno[NSYS];
-	uint8_t		stream[NSYS * SIZE];
+	uint8_t		sb[NSTEPS][SIZE];	/* ghost stream of each round, indexed by the buffer position it belongs to (see io_call) */
 	int32_t		ev_ret[NEVC];
 	int32_t		cb_ret[NCB];
 	int32_t		errno0;
@@ -70,70 +70,25 @@ struct in_s {
 };
 #include "verif_in.h"
 
-/* ---------------- recorder for the tpt_ev_* layer ---------------- */
-enum { F_ADD_ARGS, F_ADD_ARGS2, F_DEL_ARGS1, F_ENABLE_ARGS, F_ENABLE_ARGS1 };
-static int evc_fn[NEVC], evc_enable[NEVC], evc_ud[NEVC], evc_ret[NEVC], evc_after_cb[NEVC];
-static uint16_t evc_event[NEVC], evc_flags[NEVC];
-static uint32_t evc_fflags[NEVC];
-static uint64_t evc_data[NEVC];
-static int n_evc, n_cb;
-static tp_udata_p ud_io, ud_tm;		/* the task's two udata */
-static tpt_p the_tpt;
-static int m_reg[2], m_en[2];		/* model of the layer below (C06 automaton): registered / enabled */
+/* assert, then let later obligations use the fact (sound: the assertion itself is an obligation of the -mv job) */
+#define V_CHECK(c, msg) do { V_ASSERT(c, msg); V_ASSUME(c); } while (0)
 
-static int evc(int fn, int enable, tpt_p tpt, uint16_t event, uint16_t flags, uint32_t fflags, uint64_t data, tp_udata_p ud) {
-	int k = n_evc++;
-	V_ASSERT(k < NEVC, "call budget: tpt_ev_*");
-	if (k >= NEVC) exit(5);
-	int u = (ud == ud_io) ? 0 : (ud == ud_tm ? 1 : 2);
-	evc_fn[k] = fn; evc_enable[k] = enable; evc_ud[k] = u; evc_event[k] = event; evc_flags[k] = flags;
-	evc_fflags[k] = fflags; evc_data[k] = data; evc_after_cb[k] = n_cb;
-	if (fn <= F_ADD_ARGS2) V_ASSERT(tpt == the_tpt, "registrations go to the task's thread");
-	int r = IN.ev_ret[k];
-	V_ASSUME(r >= 0 && r < 4096);
-	/* contract of the layer below (decided in C06): a foreign udata is refused; a timer call on a udata that holds no
-	 * timerfd (the I/O udata) is ENOENT and changes nothing; deleting/disabling a timer that does not exist is ENOENT;
-	 * delete always leaves the udata unregistered; a refused add/enable leaves nothing installed. */
-	if (u == 2 || (event == TP_EV_TIMER) != (u == 1)) {
-		r = (u == 2) ? EINVAL : ENOENT;
-		evc_ret[k] = r;
-		return (r);
-	}
-	if (u == 1 && !m_reg[1] && (fn == F_DEL_ARGS1 || (fn >= F_ENABLE_ARGS && !enable))) r = ENOENT;
-#ifdef KF_TASK_TIMER_UDATA	/* known finding task-timer-udata: the error path of tp_task_restart / tp_task_enable removes the
-				 * timer through tp_data instead of tp_timer. Blocking clause: the I/O registration/enable
-				 * does not fail while the task's timer is armed. */
-	V_ASSUME(!(u == 0 && r != 0 && (fn == F_ADD_ARGS2 || (fn == F_ENABLE_ARGS1 && enable)) && m_reg[1] && m_en[1]));
-#endif
-	evc_ret[k] = r;
-	if (fn == F_DEL_ARGS1) { m_reg[u] = 0; m_en[u] = 0; }
-	else if (r != 0) { if (!(u == 1 && r == ENOENT && !m_reg[1])) { m_reg[u] = 0; m_en[u] = 0; } }
-	else if (fn <= F_ADD_ARGS2 || enable) { m_reg[u] = 1; m_en[u] = 1; }
-	else { m_reg[u] = 1; m_en[u] = 0; }
-	return (r);
-}
-static int v_tpt_ev_add_args(tpt_p tpt, uint16_t event, uint16_t flags, uint32_t fflags, uint64_t data, tp_udata_p ud) {
-	return (evc(F_ADD_ARGS, 1, tpt, event, flags, fflags, data, ud));
-}
-static int v_tpt_ev_add_args2(tpt_p tpt, uint16_t event, uint16_t flags, tp_udata_p ud) {
-	return (evc(F_ADD_ARGS2, 1, tpt, event, flags, 0, 0, ud));
-}
-static int v_tpt_ev_del_args1(uint16_t event, tp_udata_p ud) {
-	return (evc(F_DEL_ARGS1, 0, NULL, event, 0, 0, 0, ud));
-}
-static int v_tpt_ev_enable_args(int enable, uint16_t event, uint16_t flags, uint32_t fflags, uint64_t data, tp_udata_p ud) {
-	return (evc(F_ENABLE_ARGS, enable != 0, NULL, event, flags, fflags, data, ud));
-}
-static int v_tpt_ev_enable_args1(int enable, uint16_t event, tp_udata_p ud) {
-	return (evc(F_ENABLE_ARGS1, enable != 0, NULL, event, 0, 0, 0, ud));
-}
+#include "evrec.h"	/* recorder for the tpt_ev_* layer (+ macro redirection of tpt_ev_*) */
 
 /* ---------------- I/O system calls over a ghost stream ---------------- */
 static uint8_t *g_data;			/* the io_buf's data (exactly SIZE bytes) */
 static int n_sys;
 static int g_ev_eof;			/* the pool flagged EOF (EPOLLHUP/RDHUP) for the event being handled */
-static size_t g_pos;			/* bytes of the ghost stream consumed (reads) / emitted (writes) */
-static uint8_t g_out[NSYS * SIZE];	/* bytes emitted by write/send, in order */
+/* Ghost stream.  The k-th byte that arrives in a round must land at buffer position off0 + k (off0 = buffer offset when
+ * the round began) - that each request really is issued at [off0 + bytes so far, ...) is asserted separately.  The stream
+ * of a round is therefore stored indexed by buffer position: byte k of the round's stream is IN.sb[round][off0 + k].
+ * This is only a re-indexing of an arbitrary stream (off0 and the contents are both solver variables), and it lets the
+ * stub copy with concrete array indices; a literal stream[pos + i] with solver-dependent pos and length made SIZE = 8
+ * time out [measured].  Writes: the bytes handed to the kernel are recorded per buffer position with an emission count. */
+static size_t g_pos;			/* bytes consumed (reads) / emitted (writes) so far, all rounds */
+static int g_round;
+static uint8_t g_out[SIZE];		/* byte emitted from buffer position p (write/send) */
+static int g_out_cnt[SIZE];		/* how often position p was emitted in the current round */
 static int sys_kind[NSYS], sys_fd[NSYS], sys_flags[NSYS];
 static size_t sys_off[NSYS], sys_len[NSYS];	/* buffer offset (ptr - data) and length requested */
 static int64_t sys_foff[NSYS], sys_ret[NSYS];
@@ -158,9 +113,11 @@ static ssize_t io_call(int kind, int fd, void *buf, size_t len, int flags, off_t
 		errno = IN.io_errno[k];
 		return (-1);
 	}
-	for (int64_t i = 0; i < r; i++) {
-		if (kind == K_PREAD || kind == K_RECV) ((uint8_t *)buf)[i] = IN.stream[g_pos + (size_t)i];
-		else g_out[g_pos + (size_t)i] = ((uint8_t *)buf)[i];
+	size_t b = sys_off[k];
+	for (size_t p = 0; p < SIZE; p++) {
+		if (p < b || p >= b + (size_t)r) continue;
+		if (kind == K_PREAD || kind == K_RECV) g_data[p] = IN.sb[g_round][p];
+		else { g_out[p] = g_data[p]; g_out_cnt[p]++; }
 	}
 	g_pos += (size_t)r;
 	return ((ssize_t)r);
@@ -181,11 +138,6 @@ static ssize_t v_recvfrom(int fd, void *b, size_t n, int fl, struct sockaddr *a,
 	(void)fd; (void)b; (void)n; (void)fl; (void)a; (void)l; errno = EAGAIN; return (-1);
 }
 
-#define tpt_ev_add_args		v_tpt_ev_add_args
-#define tpt_ev_add_args2	v_tpt_ev_add_args2
-#define tpt_ev_del_args1	v_tpt_ev_del_args1
-#define tpt_ev_enable_args	v_tpt_ev_enable_args
-#define tpt_ev_enable_args1	v_tpt_ev_enable_args1
 #define pread		v_pread
 #define recv		v_recv
 #define pwrite		v_pwrite
@@ -195,7 +147,24 @@ static ssize_t v_recvfrom(int fd, void *b, size_t n, int fl, struct sockaddr *a,
 #define skt_accept	v_skt_accept
 #define skt_connect	v_skt_connect
 
+/* tp_task_create()'s calloc hands out one static, zeroed, typed tp_task_t (a calloc'ed block is an untyped byte array for
+ * CBMC: 1.7x more variables [measured]); free() is recorded.  Allocation failure and heap lifetime are outside C16. */
+static void *v_calloc_task(size_t n, size_t sz);
+static void v_free_task(void *p);
+#define calloc	v_calloc_task
+#define free	v_free_task
 #include "threadpool/threadpool_task.c"	/* the code under test */
+#undef calloc
+#undef free
+static tp_task_t task_store;
+static int n_task_alloc, n_task_free;
+static void *v_calloc_task(size_t n, size_t sz) {
+	V_ASSERT(n * sz == sizeof(tp_task_t) && n_task_alloc == 0, "one task object of the right size is allocated");
+	n_task_alloc++;
+	memset(&task_store, 0, sizeof(task_store));
+	return ((void *)&task_store);
+}
+static void v_free_task(void *p) { V_ASSERT(p == (void *)&task_store && n_task_free == 0, "the task object is freed once"); n_task_free++; }
 
 /* Referenced by tp_task_bind_accept_*create (not exercised here: they only compose skt_bind/skt_listen with
  * tp_task_accept_create); present for the native link of the replay only. */
@@ -261,14 +230,13 @@ void harness(void) {
 	ud_io = &t->tp_data; ud_tm = &t->tp_timer;
 	uint16_t efl = IN.event_flags;
 	V_ASSUME((efl & ~(TP_F_ONESHOT | TP_F_DISPATCH)) == 0 && efl != (TP_F_ONESHOT | TP_F_DISPATCH));
-	V_ASSUME(IN.file_offset >= 0 && IN.file_offset < ((int64_t)1 << 62));
-	V_ASSUME(IN.tot < ((uint64_t)1 << 62));
 
 #define CAPTURE() do { off0 = iob.offset; tr0 = iob.transfer_size; used0 = iob.used; foff0 = (int64_t)t->offset; \
-	tot0 = t->tot_transfered_size; pos0 = g_pos; evc0 = n_evc; step_cb0 = n_cb; step_sys0 = n_sys; memcpy(snap, g_data, SIZE); } while (0)
+	tot0 = t->tot_transfered_size; pos0 = g_pos; evc0 = n_evc; step_cb0 = n_cb; step_sys0 = n_sys; memcpy(snap, g_data, SIZE); \
+	for (int q = 0; q < SIZE; q++) g_out_cnt[q] = 0; } while (0)
 #if MODE == 1
 	/* first I/O without scheduling */
-	CAPTURE(); foff0 = IN.file_offset; tot0 = 0;
+	CAPTURE(); foff0 = (int64_t)IN.file_offset; tot0 = 0;
 	r = tp_task_start_ex(0, t, EVENT, efl, IN.timeout, (off_t)IN.file_offset, &iob, task_cb);
 #else
 	/* a started task: tp_task_start_ex(1, ...) registers, then state as left by earlier rounds */
@@ -282,6 +250,7 @@ void harness(void) {
     for (int st = 0; st < NSTEPS; st++) {
 #if MODE == 0
 	CAPTURE();
+	g_round = st;
 	struct evin_s *ei = &IN.ev[st];
 	tp_event_t ev;
 	int is_timer = (ei->is_timer != 0);
@@ -315,33 +284,36 @@ void harness(void) {
 	for (int k = step_sys0; k < NSYS; k++) {
 		if (k >= n_sys) break;
 		V_ASSERT(sys_kind[k] == (EVENT == TP_EV_READ ? (TYPE ? K_RECV : K_PREAD) : (TYPE ? K_SEND : K_PWRITE)),
-		    "the system call matches task type and event");
-		V_ASSERT(sys_fd[k] == 7, "I/O on the task's descriptor");
-		V_ASSERT(sys_off[k] == off0 + sum && sys_len[k] == tr0 - sum, "each request = [current offset, +remaining transfer size)");
-		if (!TYPE) V_ASSERT(sys_foff[k] == foff0 + (int64_t)sum, "file offset advances with the data");
-		if (TYPE) V_ASSERT((sys_flags[k] & MSG_DONTWAIT) != 0, "socket I/O is non-blocking");
-		V_ASSERT(!hard_err && !soft_err && !zero, "no I/O after an error or end of stream in the same round");
+		    "[mv] the system call matches task type and event");
+		V_ASSERT(sys_fd[k] == 7, "[mv] I/O on the task's descriptor");
+		V_CHECK(sys_off[k] == off0 + sum && sys_len[k] == tr0 - sum, "[mv] each request = [current offset, +remaining transfer size)");
+		if (!TYPE) V_ASSERT(sys_foff[k] == foff0 + (int64_t)sum, "[mv] file offset advances with the data");
+		if (TYPE) V_ASSERT((sys_flags[k] & MSG_DONTWAIT) != 0, "[mv] socket I/O is non-blocking");
+		V_CHECK(!hard_err && !soft_err && !zero, "[mv] no I/O after an error or end of stream in the same round");
 		if (sys_ret[k] > 0) sum += (size_t)sys_ret[k];
 		else if (sys_ret[k] == 0) zero = 1;
 		else { last_errno = IN.io_errno[k] ? IN.io_errno[k] : EINVAL; if (is_filtered(last_errno)) soft_err = 1; else hard_err = 1; }
 	}
-	V_ASSERT(iob.offset == off0 + sum, "buffer offset advanced by the bytes moved");
-	V_ASSERT(iob.transfer_size == tr0 - sum, "transfer size reduced by the bytes moved");
-	V_ASSERT(iob.offset + iob.transfer_size <= SIZE && iob.used <= SIZE, "cursors stay inside the buffer");
-	if (EVENT == TP_EV_READ) V_ASSERT(iob.used == (used0 + sum < SIZE ? used0 + sum : SIZE), "used grows by the bytes read (capped at size)");
-	else V_ASSERT(iob.used == used0, "writing does not change used");
-	V_ASSERT(t->offset == (off_t)(foff0 + (int64_t)sum), "task offset advanced by the bytes moved");
+	V_CHECK(iob.offset == off0 + sum, "[mv] buffer offset advanced by the bytes moved");
+	V_CHECK(iob.transfer_size == tr0 - sum, "[mv] transfer size reduced by the bytes moved");
+	V_ASSERT(iob.offset + iob.transfer_size <= SIZE && iob.used <= SIZE, "[mv] cursors stay inside the buffer");
+	if (EVENT == TP_EV_READ) V_ASSERT(iob.used == (used0 + sum < SIZE ? used0 + sum : SIZE), "[mv] used grows by the bytes read (capped at size)");
+	else V_ASSERT(iob.used == used0, "[mv] writing does not change used");
+	V_ASSERT(t->offset == (off_t)(foff0 + (int64_t)sum), "[mv] task offset advanced by the bytes moved");
 	for (size_t i = 0; i < SIZE; i++) {
 		if (EVENT == TP_EV_READ && i >= off0 && i < off0 + sum)
-			V_ASSERT(g_data[i] == IN.stream[pos0 + i - off0], "bytes read are the next bytes of the stream, in order, at the window");
+			V_ASSERT(g_data[i] == IN.sb[st][i], "[mv] bytes read are the next bytes of the stream, in order, at the window");
 		else
-			V_ASSERT(g_data[i] == snap[i], "bytes outside the transferred window are untouched");
+			V_ASSERT(g_data[i] == snap[i], "[mv] bytes outside the transferred window are untouched");
 	}
 	if (EVENT == TP_EV_WRITE)
-		for (size_t i = 0; i < SIZE; i++) if (i < sum) V_ASSERT(g_out[pos0 + i] == snap[off0 + i], "bytes written are the buffer window, in order");
+		for (size_t i = 0; i < SIZE; i++) {
+			if (i >= off0 && i < off0 + sum) V_ASSERT(g_out_cnt[i] == 1 && g_out[i] == snap[i], "[mv] bytes written are the buffer window, each once, in order");
+			else V_ASSERT(g_out_cnt[i] == 0, "[mv] nothing outside the window is written");
+		}
 
 	/* ---- callbacks ---- */
-	V_ASSERT(ncb <= 1, "at most one callback per event");
+	V_ASSERT(ncb <= 1, "[cb] at most one callback per event");
 	int must_cb = is_timer || hard_err || zero || (MODE == 0 && nsys == 0) || (tr0 - sum == 0 && sum > 0) ||
 	    (EVENT == TP_EV_READ && (IN.flags & TP_TASK_F_CB_AFTER_EVERY_READ) && sum > 0);
 	/* socket error / EOF flagged by the pool must be reported even when the I/O call itself says "try again" */
@@ -350,29 +322,29 @@ void harness(void) {
 				 * then answers EAGAIN-class (blocking clause) */
 	V_ASSUME(!(!is_timer && (ei->flags & TP_F_ERROR) && !(ei->flags & TP_F_EOF) && soft_err));
 #endif
-	if (must_cb) V_ASSERT(ncb == 1, "EOF / error / timeout / completed transfer is reported by exactly one callback");
+	if (must_cb) V_ASSERT(ncb == 1, "[cb] EOF / error / timeout / completed transfer is reported by exactly one callback");
 	if (ncb == 1) {
 		int c = n_cb - 1;
-		V_ASSERT(cb_task[c] == t && cb_buf[c] == &iob && cb_udata[c] == (void *)&udata_cookie, "callback gets task, buffer, udata");
-		V_ASSERT(cb_tr[c] == tot0 + sum, "transferred size = bytes moved since the previous callback");
-		V_ASSERT(t->tot_transfered_size == 0, "running total restarts after a callback");
-		V_ASSERT(cb_nsys[c] == n_sys, "no I/O after the callback within the same event");
-		if (is_timer) V_ASSERT(cb_error[c] == ETIMEDOUT && sum == 0, "timeout reported as ETIMEDOUT, no I/O attempted");
-		else if (hard_err) V_ASSERT(cb_error[c] == last_errno, "I/O error code reported");
-		else if (ei->flags & TP_F_ERROR) V_ASSERT(cb_error[c] == (int)ei->fflags, "socket error from the pool reported");
-		else V_ASSERT(cb_error[c] == 0, "no error reported without an error");
-		if (!is_timer && (ei->flags & TP_F_EOF)) V_ASSERT((cb_eof[c] & TP_TASK_IOF_F_SYS) != 0, "pool EOF flag forwarded");
-		else V_ASSERT((cb_eof[c] & TP_TASK_IOF_F_SYS) == 0, "no system EOF without the pool flag");
-		if (EVENT == TP_EV_READ && zero) V_ASSERT((cb_eof[c] & TP_TASK_IOF_F_BUF) != 0, "read returning 0 reported as end of stream");
-		else V_ASSERT((cb_eof[c] & TP_TASK_IOF_F_BUF) == 0, "no end of stream reported otherwise");
+		V_ASSERT(cb_task[c] == t && cb_buf[c] == &iob && cb_udata[c] == (void *)&udata_cookie, "[cb] callback gets task, buffer, udata");
+		V_ASSERT(cb_tr[c] == tot0 + sum, "[cb] transferred size = bytes moved since the previous callback");
+		V_ASSERT(t->tot_transfered_size == 0, "[cb] running total restarts after a callback");
+		V_ASSERT(cb_nsys[c] == n_sys, "[cb] no I/O after the callback within the same event");
+		if (is_timer) V_ASSERT(cb_error[c] == ETIMEDOUT && sum == 0, "[cb] timeout reported as ETIMEDOUT, no I/O attempted");
+		else if (hard_err) V_ASSERT(cb_error[c] == last_errno, "[cb] I/O error code reported");
+		else if (ei->flags & TP_F_ERROR) V_ASSERT(cb_error[c] == (int)ei->fflags, "[cb] socket error from the pool reported");
+		else V_ASSERT(cb_error[c] == 0, "[cb] no error reported without an error");
+		if (!is_timer && (ei->flags & TP_F_EOF)) V_ASSERT((cb_eof[c] & TP_TASK_IOF_F_SYS) != 0, "[cb] pool EOF flag forwarded");
+		else V_ASSERT((cb_eof[c] & TP_TASK_IOF_F_SYS) == 0, "[cb] no system EOF without the pool flag");
+		if (EVENT == TP_EV_READ && zero) V_ASSERT((cb_eof[c] & TP_TASK_IOF_F_BUF) != 0, "[cb] read returning 0 reported as end of stream");
+		else V_ASSERT((cb_eof[c] & TP_TASK_IOF_F_BUF) == 0, "[cb] no end of stream reported otherwise");
 		if (is_timer) V_WITNESS("timeout callback");
 		if (hard_err) V_WITNESS("I/O error callback");
 		if (zero) V_WITNESS("end of stream callback");
 		if (sum == tr0 && sum > 0) V_WITNESS("transfer completed");
 		if (sum > 0 && nsys > 1) V_WITNESS("fragmented transfer");
 	} else {
-		V_ASSERT(t->tot_transfered_size == tot0 + sum, "without a callback the bytes moved are carried to the next one");
-		V_ASSERT(soft_err || (MODE == 1 && nsys == 0 && tr0 == 0), "a round ends without callback only on EAGAIN-class results (or nothing to transfer at start)");
+		V_ASSERT(t->tot_transfered_size == tot0 + sum, "[cb] without a callback the bytes moved are carried to the next one");
+		V_ASSERT(soft_err || (MODE == 1 && nsys == 0 && tr0 == 0), "[cb] a round ends without callback only on EAGAIN-class results (or nothing to transfer at start)");
 		V_WITNESS("would-block: no callback");
 	}
 
@@ -388,7 +360,7 @@ void harness(void) {
 		if (before) {
 			if (evc_ud[k] == 1 && (evc_fn[k] == F_DEL_ARGS1 || (evc_fn[k] == F_ENABLE_ARGS1 && !evc_enable[k])) && evc_event[k] == TP_EV_TIMER) pre_timer_off++;
 			else if (evc_ud[k] == 0 && (evc_fn[k] == F_DEL_ARGS1 || (evc_fn[k] == F_ENABLE_ARGS1 && !evc_enable[k])) && evc_event[k] == EVENT) pre_io_off++;
-			else V_ASSERT(0, "only disable/delete calls precede the callback");
+			else V_ASSERT(0, "[arm] only disable/delete calls precede the callback");
 		} else {
 			if (evc_ud[k] == 1 && evc_fn[k] == F_ENABLE_ARGS && evc_enable[k] && evc_event[k] == TP_EV_TIMER &&
 			    evc_flags[k] == TP_F_DISPATCH && evc_fflags[k] == TP_FF_T_MSEC && evc_data[k] == IN.timeout) post_timer_on++;
@@ -396,40 +368,40 @@ void harness(void) {
 			else post_other++;
 		}
 	}
-	if (is_timer) V_ASSERT(pre_io_off >= 1 && pre_timer_off <= ((efl & TP_F_ONESHOT) ? 1 : 0), "timeout: the I/O event is disabled (or the task stopped) before the callback");
-	else V_ASSERT(pre_timer_off == (IN.timeout != 0 ? 1 : 0) && pre_io_off == 0, "I/O event: the timeout timer is disabled/removed before the callback iff a timeout is set");
-	V_ASSERT(post_other == 0, "no unrelated registration calls");
+	if (is_timer) V_ASSERT(pre_io_off >= 1 && pre_timer_off <= ((efl & TP_F_ONESHOT) ? 1 : 0), "[arm] timeout: the I/O event is disabled (or the task stopped) before the callback");
+	else V_ASSERT(pre_timer_off == (IN.timeout != 0 ? 1 : 0) && pre_io_off == 0, "[arm] I/O event: the timeout timer is disabled/removed before the callback iff a timeout is set");
+	V_ASSERT(post_other == 0, "[arm] no unrelated registration calls");
 	if (!cont) {
-		V_ASSERT(post_timer_on == 0 && post_io_on == 0, "nothing is re-armed unless the callback returns CONTINUE");
+		V_ASSERT(post_timer_on == 0 && post_io_on == 0, "[arm] nothing is re-armed unless the callback returns CONTINUE");
 		V_WITNESS("callback ended the task");
 	} else if (!(efl & TP_F_ONESHOT)) {	/* (the header forbids CONTINUE with ONESHOT) */
-		V_ASSERT(post_timer_on == (IN.timeout != 0 ? 1 : 0), "CONTINUE: timeout timer re-armed with the task's timeout iff one is set");
-		V_ASSERT(post_io_on == (((efl & TP_F_DISPATCH) || is_timer) ? 1 : 0), "CONTINUE: I/O event re-enabled when it was disabled (dispatch / after timeout)");
+		V_ASSERT(post_timer_on == (IN.timeout != 0 ? 1 : 0), "[arm] CONTINUE: timeout timer re-armed with the task's timeout iff one is set");
+		V_ASSERT(post_io_on == (((efl & TP_F_DISPATCH) || is_timer) ? 1 : 0), "[arm] CONTINUE: I/O event re-enabled when it was disabled (dispatch / after timeout)");
 		if (evc_all_ok(evc0)) {
-			V_ASSERT(m_reg[0] && m_en[0], "CONTINUE: the I/O event is armed again");
-			V_ASSERT((IN.timeout != 0) == (m_reg[1] && m_en[1]), "CONTINUE: the timer is armed again iff a timeout is set");
+			V_ASSERT(m_reg[0] && m_en[0], "[arm] CONTINUE: the I/O event is armed again");
+			V_ASSERT((IN.timeout != 0) == (m_reg[1] && m_en[1]), "[arm] CONTINUE: the timer is armed again iff a timeout is set");
 		}
 		V_WITNESS("re-armed after CONTINUE");
 	}
 #endif
 #if MODE == 1
-	V_ASSERT(r == 0 || !evc_all_ok(0), "start without scheduling succeeds unless a registration call fails");
+	V_ASSERT(r == 0 || !evc_all_ok(0), "[arm] start without scheduling succeeds unless a registration call fails");
 	if (ncb == 1 && !cont) {
-		V_ASSERT(n_evc == 0 && r == 0, "first I/O finished the task: nothing is registered");
+		V_ASSERT(n_evc == 0 && r == 0, "[arm] first I/O finished the task: nothing is registered");
 		V_WITNESS("first I/O completed the task without the pool");
 	} else {
 		/* tp_task_restart(): timer (iff timeout) then the I/O event */
 		int k = 0;
 		if (IN.timeout != 0) {
 			V_ASSERT(n_evc >= 1 && evc_fn[0] == F_ADD_ARGS && evc_ud[0] == 1 && evc_event[0] == TP_EV_TIMER && evc_flags[0] == TP_F_DISPATCH &&
-			    evc_fflags[0] == TP_FF_T_MSEC && evc_data[0] == IN.timeout, "restart arms the timeout timer (ms, dispatch)");
+			    evc_fflags[0] == TP_FF_T_MSEC && evc_data[0] == IN.timeout, "[arm] restart arms the timeout timer (ms, dispatch)");
 			k = 1;
 		}
 		if (IN.timeout == 0 || evc_ret[0] == 0)
 			V_ASSERT(n_evc > k && evc_fn[k] == F_ADD_ARGS2 && evc_ud[k] == 0 && evc_event[k] == EVENT && evc_flags[k] == efl,
-			    "restart registers the I/O event with the task's flags");
-		if (r == 0) V_ASSERT(m_reg[0] && m_en[0] && (IN.timeout != 0) == (m_reg[1] && m_en[1]), "after a successful start the task is armed");
-		else V_ASSERT(!m_reg[0] && !m_reg[1], "a failed start leaves nothing registered");
+			    "[arm] restart registers the I/O event with the task's flags");
+		if (r == 0) V_ASSERT(m_reg[0] && m_en[0] && (IN.timeout != 0) == (m_reg[1] && m_en[1]), "[arm] after a successful start the task is armed");
+		else V_ASSERT(!m_reg[0] && !m_reg[1], "[arm] a failed start leaves nothing registered");
 		V_WITNESS("first I/O then scheduled");
 	}
 #endif
@@ -477,6 +449,7 @@ void harness(void) {
 		tp_task_destroy(t);
 		V_ASSERT(!m_reg[0] && !m_reg[1], "after destroy nothing of the task is registered");
 		V_ASSERT((n_close - c0) == ((IN.flags & TP_TASK_F_CLOSE_ON_DESTROY) ? 1 : 0), "descriptor closed iff CLOSE_ON_DESTROY");
+		V_ASSERT(n_task_free == 1, "destroy releases the task object");
 		V_WITNESS("destroyed");
 	}
 	V_ASSERT(n_cb == cb0 && n_sys == 0, "control calls do no I/O and call nothing back");
